@@ -85,6 +85,12 @@ def _check(ctx, what, sig, ln, v, enc, typ, obj, ops, val, Dfg, Node, OutPort):
         e1 = W.enc_value(obj1)
         if W.canon(W.strip_hugr(e1)) != W.canon(W.strip_hugr(enc)) or not W.same_t(W.enc_type(obj1.type_()), typ):
             return bad("built from one-shot iterators", {"enc": enc, "typ": typ}, {"enc": e1, "typ": W.enc_type(obj1.type_())}, "TypeOfS / EncValS (Iterable arguments)")
+        # equal elements given as ONE Python object (`[x] * n`, a reused tuple): every position still counts
+        W._SHARED.clear()
+        obj2 = W.build_value(v, once="shared")
+        e2 = W.enc_value(obj2)
+        if W.canon(W.strip_hugr(e2)) != W.canon(W.strip_hugr(enc)) or not W.same_t(W.enc_type(obj2.type_()), typ):
+            return bad("built with shared element objects", {"enc": enc, "typ": typ}, {"enc": e2, "typ": W.enc_type(obj2.type_())}, "TypeOfS / EncValS (one object at several positions)")
         # ... and the constant keeps type, fields and extension sets when the HUGR holding it is saved and loaded
         from hugr.hugr import Hugr
         d.set_outputs(ld)
